@@ -79,6 +79,9 @@ type Obs struct {
 	// too short to hold a timestamp).  Neither is an observation; neither may disturb the times of the others.
 	Damaged bool `json:"damaged,omitempty"`
 	Runt    int  `json:"runt_bytes,omitempty"`
+	// Multiple: the message's "multiple message" flag is set (more messages of this epoch follow), as it is on
+	// all but the last message of every real epoch.
+	Multiple bool `json:"multiple_message_flag,omitempty"`
 }
 
 type Case struct {
@@ -169,7 +172,7 @@ func (c Case) Frames() [][]byte {
 		if ob.Foreign != 0 {
 			typ = ob.Foreign
 		}
-		m := enc.MSM{Type: typ, StationID: uint(i & 4095), Timestamp: ts}
+		m := enc.MSM{Type: typ, StationID: uint(i & 4095), Timestamp: ts, Multiple: ob.Multiple}
 		frames[i] = m.Frame()
 		if ob.Damaged {
 			frames[i][len(frames[i])-1] ^= 0x5a
@@ -209,7 +212,7 @@ func CheckVia(c Case, o *stats.Obs, feed Feeder) error {
 		if ob.Foreign != 0 {
 			typ = ob.Foreign
 		}
-		m := enc.MSM{Type: typ, StationID: uint(i & 4095), Timestamp: ts}
+		m := enc.MSM{Type: typ, StationID: uint(i & 4095), Timestamp: ts, Multiple: ob.Multiple}
 		frames[i] = m.Frame()
 		if ob.Damaged {
 			frames[i][len(frames[i])-1] ^= 0x5a
@@ -604,6 +607,18 @@ func GenAt(t *rapid.T, anywhere bool, midnightUTC bool) Case {
 		}
 		c.Msgs = append(c.Msgs, seqs[cc][idx[cc]])
 		idx[cc]++
+	}
+	// the multiple-message flag: set on all but the last message of an epoch (epoch mode), or at random
+	flagMode := rapid.IntRange(0, 2).Draw(t, "multipleFlag")
+	for i := range c.Msgs {
+		switch {
+		case flagMode == 1 && epochMode:
+			c.Msgs[i].Multiple = i+1 < len(c.Msgs) && c.Msgs[i+1].U == c.Msgs[i].U
+		case flagMode == 1:
+			c.Msgs[i].Multiple = i+1 < len(c.Msgs)
+		case flagMode == 2:
+			c.Msgs[i].Multiple = rapid.Bool().Draw(t, "multiple")
+		}
 	}
 	// MSMs of the constellations the statement does not name, anywhere in between
 	if rapid.IntRange(0, 3).Draw(t, "foreign") == 1 {
